@@ -9,10 +9,166 @@ package markup
 //
 //@ ghost field ParseResult.src string
 //
+// ParseMarkup: every parser field read during the call was written earlier in the same call
+// (track_init: the init bits of all four fields are cleared on entry), so the result does not depend on
+// what the parser value held before (C14). That is what justifies the three assumed postconditions the
+// dialogue runner relies on: success, plain text and attribute count are functions of the input.
+//
 //@ func (lineParser *LineParser) ParseMarkup(input string) (res *ParseResult, err error)
-//@   trusted
 //@   requires lineParser != nil
-//@   modifies fields(lineParser)
-//@   ensures (err == nil) == parseOk(input)
-//@   ensures err == nil ==> res != nil && fresh(res) && res.src == input && res.Text == parsedText(input) && len(res.Attributes) == parsedAttrs(input)
-//@   ensures err != nil ==> res == nil
+//@   track_init lineParser.input, lineParser.reader, lineParser.position, lineParser.sourcePosition
+//@   modifies fields(lineParser), all(strings.Reader.i), all(strings.Reader.prev)
+//@   ensures "result-or-error": (err == nil) == (res != nil) && (err == nil ==> fresh(res))
+//@   ensures "assumed:success-is-a-function-of-the-input (C14)": (err == nil) == parseOk(input)
+//@   ensures "assumed:text-and-attribute-count-are-functions-of-the-input (C14)": err == nil ==> res.src == input && res.Text == parsedText(input) && len(res.Attributes) == parsedAttrs(input)
+//
+//@ func (lineParser *LineParser) parseMarkup() (res *ParseResult, err error)
+//@   requires lineParser != nil && inited(lineParser.input)
+//@   tracks lineParser.sourcePosition, lineParser.reader, lineParser.input, lineParser.position
+//@   modifies lineParser.reader, lineParser.position, lineParser.sourcePosition, all(strings.Reader.i), all(strings.Reader.prev)
+//@   ensures "result-or-error": (err == nil) == (res != nil) && (err == nil ==> fresh(res))
+//@   loop 0: invariant lineParser.ok() && inited(lineParser.reader) && inited(lineParser.position) && inited(lineParser.sourcePosition) && fresh(markers)
+//@   loop 0: decreases lineParser.rem()
+//
+// ---- line_parser.go: totality (C15) and purity (C14) -----------------------------------------------------------
+//
+// lpOK: the parser has a reader in a consistent state. rem() is the input still to read: every loop of
+// the parser reads at least one rune per iteration or stops, so it is the variant of all of them.
+// Init tracking (tracks / track_init): a field that is read must have been written earlier in the same
+// ParseMarkup call, so the result cannot depend on what the parser value held before (C14).
+//
+//@ pred (lp *LineParser) ok() { lp != nil && readerOK(lp.reader) }
+//@ pure func (lp *LineParser) rem() int { return len(lp.reader.s) - lp.reader.i }
+//
+//@ func peekRune(reader io.RuneScanner) (r rune, err error)
+//@   requires istype(reader, *strings.Reader) && readerOK(unbox(reader, *strings.Reader))
+//@   modifies unbox(reader, *strings.Reader).i, unbox(reader, *strings.Reader).prev
+//@   ensures "does-not-consume": unbox(reader, *strings.Reader).i == old(unbox(reader, *strings.Reader).i) && readerOK(unbox(reader, *strings.Reader))
+//@   ensures "zero-at-end": old(unbox(reader, *strings.Reader).i) >= len(unbox(reader, *strings.Reader).s) ==> r == 0 && err == nil
+//@   ensures "rune-otherwise": old(unbox(reader, *strings.Reader).i) < len(unbox(reader, *strings.Reader).s) ==> err == nil
+//
+//@ func (lineParser *LineParser) consumeWhitespace() (err error)
+//@   requires lineParser.ok() && inited(lineParser.sourcePosition) && inited(lineParser.reader) && inited(lineParser.input)
+//@   tracks lineParser.sourcePosition, lineParser.reader, lineParser.input, lineParser.position
+//@   modifies lineParser.reader.i, lineParser.reader.prev, lineParser.sourcePosition
+//@   ensures lineParser.ok() && lineParser.rem() <= old(lineParser.rem()) && inited(lineParser.sourcePosition)
+//@   loop 0: invariant lineParser.ok() && lineParser.rem() <= old(lineParser.rem()) && inited(lineParser.sourcePosition)
+//@   loop 0: decreases lineParser.rem()
+//
+//@ func (lineParser *LineParser) expectPeek(expected rune) (match bool, err error)
+//@   requires lineParser.ok() && inited(lineParser.sourcePosition) && inited(lineParser.reader) && inited(lineParser.input)
+//@   tracks lineParser.sourcePosition, lineParser.reader, lineParser.input, lineParser.position
+//@   modifies lineParser.reader.i, lineParser.reader.prev, lineParser.sourcePosition
+//@   ensures lineParser.ok() && lineParser.rem() <= old(lineParser.rem()) && inited(lineParser.sourcePosition)
+//
+//@ func (lineParser *LineParser) peekNumeric() (match bool, err error)
+//@   requires lineParser.ok() && inited(lineParser.sourcePosition) && inited(lineParser.reader) && inited(lineParser.input)
+//@   tracks lineParser.sourcePosition, lineParser.reader, lineParser.input, lineParser.position
+//@   modifies lineParser.reader.i, lineParser.reader.prev, lineParser.sourcePosition
+//@   ensures lineParser.ok() && lineParser.rem() <= old(lineParser.rem()) && inited(lineParser.sourcePosition)
+//
+//@ func (lineParser *LineParser) peekWhitespace() (match bool, err error)
+//@   requires lineParser.ok() && inited(lineParser.reader)
+//@   tracks lineParser.sourcePosition, lineParser.reader, lineParser.input, lineParser.position
+//@   modifies lineParser.reader.i, lineParser.reader.prev
+//@   ensures lineParser.ok() && lineParser.rem() == old(lineParser.rem())
+//
+//@ func (lineParser *LineParser) parseRune(r rune) (err error)
+//@   requires lineParser.ok() && inited(lineParser.sourcePosition) && inited(lineParser.reader) && inited(lineParser.input)
+//@   tracks lineParser.sourcePosition, lineParser.reader, lineParser.input, lineParser.position
+//@   modifies lineParser.reader.i, lineParser.reader.prev, lineParser.sourcePosition
+//@   ensures lineParser.ok() && lineParser.rem() <= old(lineParser.rem()) && inited(lineParser.sourcePosition)
+//
+//@ func (lineParser *LineParser) parseID() (id string, err error)
+//@   requires lineParser.ok() && inited(lineParser.sourcePosition) && inited(lineParser.reader) && inited(lineParser.input)
+//@   tracks lineParser.sourcePosition, lineParser.reader, lineParser.input, lineParser.position
+//@   modifies lineParser.reader.i, lineParser.reader.prev, lineParser.sourcePosition
+//@   ensures lineParser.ok() && lineParser.rem() <= old(lineParser.rem()) && inited(lineParser.sourcePosition)
+//@   ensures "consumes-a-rune": err == nil ==> lineParser.rem() < old(lineParser.rem())
+//@   loop 0: invariant lineParser.ok() && lineParser.rem() < old(lineParser.rem()) && inited(lineParser.sourcePosition)
+//@   loop 0: decreases lineParser.rem()
+//
+//@ func (lineParser *LineParser) parseInteger() (i int, err error)
+//@   requires lineParser.ok() && inited(lineParser.sourcePosition) && inited(lineParser.reader) && inited(lineParser.input)
+//@   tracks lineParser.sourcePosition, lineParser.reader, lineParser.input, lineParser.position
+//@   modifies lineParser.reader.i, lineParser.reader.prev, lineParser.sourcePosition
+//@   ensures lineParser.ok() && lineParser.rem() <= old(lineParser.rem()) && inited(lineParser.sourcePosition)
+//@   loop 0: invariant lineParser.ok() && lineParser.rem() <= old(lineParser.rem()) && inited(lineParser.sourcePosition)
+//@   loop 0: decreases lineParser.rem()
+//
+//@ func (lineParser *LineParser) parseString() (str string, err error)
+//@   requires lineParser.ok() && inited(lineParser.sourcePosition) && inited(lineParser.reader) && inited(lineParser.input)
+//@   tracks lineParser.sourcePosition, lineParser.reader, lineParser.input, lineParser.position
+//@   modifies lineParser.reader.i, lineParser.reader.prev, lineParser.sourcePosition
+//@   ensures lineParser.ok() && lineParser.rem() <= old(lineParser.rem()) && inited(lineParser.sourcePosition)
+//@   loop 0: invariant lineParser.ok() && lineParser.rem() <= old(lineParser.rem()) && inited(lineParser.sourcePosition)
+//@   loop 0: decreases lineParser.rem()
+//
+//@ func (lineParser *LineParser) parseValue() (v Value, err error)
+//@   requires lineParser.ok() && inited(lineParser.sourcePosition) && inited(lineParser.reader) && inited(lineParser.input)
+//@   tracks lineParser.sourcePosition, lineParser.reader, lineParser.input, lineParser.position
+//@   modifies lineParser.reader.i, lineParser.reader.prev, lineParser.sourcePosition
+//@   ensures lineParser.ok() && lineParser.rem() <= old(lineParser.rem()) && inited(lineParser.sourcePosition)
+//
+//@ func (lineParser *LineParser) parseAttributeMarker() (m attributeMarker, err error)
+//@   requires lineParser.ok() && inited(lineParser.sourcePosition) && inited(lineParser.reader) && inited(lineParser.input) && inited(lineParser.position)
+//@   tracks lineParser.sourcePosition, lineParser.reader, lineParser.input, lineParser.position
+//@   modifies lineParser.reader.i, lineParser.reader.prev, lineParser.sourcePosition
+//@   ensures lineParser.ok() && lineParser.rem() <= old(lineParser.rem()) && inited(lineParser.sourcePosition)
+//@   ensures "marker-at-the-current-position": err == nil ==> m.position == lineParser.position
+//@   ensures "owns-its-properties": arrayOf(m.properties) == 0 || fresh(m.properties)
+//@   loop 0: invariant lineParser.ok() && lineParser.rem() <= old(lineParser.rem()) && inited(lineParser.sourcePosition) && fresh(properties)
+//
+//@ func (lineParser *LineParser) parseRawTextUpToAttributeClose(markerName string) (raw string, err error)
+//@   requires lineParser.ok() && inited(lineParser.reader) && inited(lineParser.input) && inited(lineParser.position)
+//@   tracks lineParser.sourcePosition, lineParser.reader, lineParser.input, lineParser.position
+//@   modifies lineParser.reader, lineParser.reader.i, lineParser.reader.prev
+//@   ensures lineParser.ok() && inited(lineParser.reader)
+//@   ensures "reader-over-a-suffix": lineParser.rem() <= old(lineParser.rem())
+//
+//@ func (lineParser *LineParser) processReplacementMarker(marker attributeMarker, processor markerProcessor) (text string, err error)
+//@   requires lineParser.ok() && inited(lineParser.reader) && inited(lineParser.input) && inited(lineParser.position) && processor != nil
+//@   tracks lineParser.sourcePosition, lineParser.reader, lineParser.input, lineParser.position
+//@   modifies lineParser.reader, all(strings.Reader.i), all(strings.Reader.prev), elems(marker.properties)
+//@   ensures lineParser.ok() && inited(lineParser.reader)
+//@   ensures "reader-over-a-suffix": lineParser.rem() <= old(lineParser.rem())
+//
+//@ functype markup.markerProcessor(f, marker) (text string, err error)
+//@   requires marker != nil
+//
+//@ func (am *attributeMarker) GetProperty(name string) (v Value, ok bool)
+//@   requires am != nil
+//@   ensures "first-with-that-name": ok ==> (exists i int :: 0 <= i && i < len(am.properties) && am.properties[i].name == name && v == am.properties[i].value)
+//
+//@ func toPropertyMap(properties []property) (res map[string]Value)
+//@   ensures res != nil && fresh(res)
+//
+//@ func (v *Value) toString() (res string)
+//@   requires v != nil
+//
+//@ func getProcessor(name string) (p markerProcessor)
+//@   ensures "replacement-markers": (p != nil) == (name == "nomarkup" || name == "select" || name == "plural" || name == "ordinal")
+//
+//@ func (lineParser *LineParser) buildAttributesFromMarkers(markers []attributeMarker) (attributes []Attribute, err error)
+//@   requires lineParser != nil && inited(lineParser.input)
+//@   tracks lineParser.sourcePosition, lineParser.reader, lineParser.input, lineParser.position
+//@   ensures "owns-its-result": arrayOf(attributes) == 0 || fresh(attributes)
+//@   loop 0: invariant fresh(attributes) && fresh(unclosedMarkers)
+//@   loop 2: invariant fresh(attributes) && fresh(unclosedMarkers)
+//
+//@ func (parseResult *ParseResult) Attribute(name string) (a Attribute, ok bool)
+//@   requires parseResult != nil
+//
+//@ func processNoMarkup(marker *attributeMarker) (text string, err error)
+//@   requires marker != nil
+//@ func processSelect(marker *attributeMarker) (text string, err error)
+//@   requires marker != nil
+//@ func processPlural(marker *attributeMarker) (text string, err error)
+//@   requires marker != nil
+//
+// the English ordinal rules of the property's reference: one iff n % 10 == 1 and n % 100 != 11, ...
+//@ pure func ordinalCase(n int) string {
+//@     return (n % 10 == 1 && n % 100 != 11) ? "one" : (n % 10 == 2 && n % 100 != 12) ? "two" : (n % 10 == 3 && n % 100 != 13) ? "few" : "other" }
+//@ func processOrdinal(marker *attributeMarker) (text string, err error)
+//@   requires marker != nil
+//@ func replacePlaceholders(replacement string, value string) (res string)
